@@ -10,6 +10,7 @@ import (
 	"math/rand"
 	"os"
 	"runtime"
+	"strings"
 	"sync"
 
 	"seehuhn.de/go/postscript/afm"
@@ -271,6 +272,23 @@ func faultsCmd(args []string) error {
 			_, _, err := f.WritePDF(w)
 			return err
 		}})
+	}
+	// a sweep over the length of the encrypted portion (the hexadecimal armour of the PFA form flushes
+	// its 78-column lines at positions that depend on it): one extra glyph with a name of 1..39 letters
+	{
+		base := fontgen.Generate(rng, fontgen.Opts{NGlyphs: 2, Encoding: "none", Zone: "none"})
+		for l := 1; l <= 39; l++ {
+			f := *base
+			f.Glyphs = map[string]*type1.Glyph{}
+			for k, g := range base.Glyphs {
+				f.Glyphs[k] = g
+			}
+			f.Glyphs[strings.Repeat("g", l)] = &type1.Glyph{WidthX: 500}
+			ff := f
+			wcases = append(wcases, wcase{fmt.Sprintf("Font.Write sweep name-length %d pfa", l), func(w io.Writer) error {
+				return ff.Write(w, &type1.WriterOptions{Format: type1.FormatPFA})
+			}})
+		}
 	}
 	for _, in := range corpus.All(seed) {
 		if in.Entry != "afm" {
